@@ -37,9 +37,28 @@ def widths(rng, n, family, maxratio=50.0):
     return w / w.sum()
 
 
+def int_axis_faces(rng, kind, n):
+    """strictly increasing integer face positions stored in an integer array (a legitimate way to write a grid by hand);
+    angular axes stay inside their range: (0..6] for azimuth, (0..3] for the polar angle (n is reduced accordingly)"""
+    dt = rng.choice([np.int64, np.int32, np.int16])
+    if kind == 'ang':
+        n = min(n, 6)
+        f = np.sort(rng.choice(np.arange(0, 7), n + 1, replace=False))
+    elif kind == 'pol':
+        n = min(n, 3)
+        f = np.sort(rng.choice(np.arange(0, 4), n + 1, replace=False))
+    else:
+        steps = rng.integers(1, 5, n)
+        x0 = int(rng.integers(0, 4)) if kind == 'rad' else int(rng.integers(-3, 4))
+        f = x0 + np.concatenate([[0], np.cumsum(steps)])
+    return np.asarray(f, dtype=dt)
+
+
 def axis_faces(rng, kind, n, family, opts=None):
     """faces of one axis. kind in len/rad/ang/pol."""
     opts = opts or {}
+    if opts.get('intfaces'):
+        return int_axis_faces(rng, kind, n)
     w = widths(rng, n, family)
     if kind == 'len':
         L = float(np.exp(rng.uniform(math.log(0.2), math.log(5.0))))
@@ -90,6 +109,8 @@ def geo_opts(rng, geo):
         return None, {'lscale': float(10 ** rng.uniform(4, 8))}
     if geo == 'jitter':
         return 'jitter', {}
+    if geo == 'int':
+        return None, {'intfaces': True}
     return None, {}
 
 
@@ -106,11 +127,13 @@ def gen_grid(rng, cls, nmin=1, nmax=5, family=None, n=None, opts=None):
         fk = fam if (family is not None or rng.random() < 0.7) else str(rng.choice(FAMILIES))
         fams.append(fk)
         faces.append(axis_faces(rng, kinds[k], n[k], fk, opts))
+    n = [len(f) - 1 for f in faces]
     return faces, {'cls': cls, 'n': list(n), 'family': fams, 'r0zero': bool(kinds[0] == 'rad' and faces[0][0] == 0.0)}
 
 
 def build_mesh(pf, cls, faces):
-    return getattr(pf, cls)(*[np.array(f, dtype=float) for f in faces])
+    """integer-typed face arrays are handed over as they are (see int_axis_faces), everything else as float arrays"""
+    return getattr(pf, cls)(*[np.array(f) if np.asarray(f).dtype.kind in 'iu' else np.array(f, dtype=float) for f in faces])
 
 
 def cell_field(rng, shape, family=None):
